@@ -60,7 +60,9 @@ DT_OK = [("2020-01-02", ts("2020-01-02T00:00:00")), ("2020-01-02 03:04:05", ts("
 DT_MISSING = [("-", ["m"]), ("nan", ["m"]), ("NaN", ["m"]), ("NAN", ["m"]), (" - ", ["m"]), ("nAn ", ["m"])]
 DT_NATIVE = [({"d": "2020-01-02T03:04:05"}, ts("2020-01-02T03:04:05")), ({"ts": "2021-06-30T12:00:00.000250"}, ts("2021-06-30T12:00:00.000250")),
              ({"nat": 1}, ["m"]), ({"d": "1950-05-05T05:05:05"}, ts("1950-05-05T05:05:05"))]
-DT_BAD = ["abc", "", "x2020", "2020-13-45", "2020-01-01T25:00", "--", "n", "1.1.1.1.1", "20", "nan2"]
+DT_BAD = ["abc", "", "x2020", "2020-13-45", "2020-01-01T25:00", "--", "n", "1.1.1.1.1", "20", "nan2",
+          # spellings pandas itself reads as a missing or a current timestamp
+          "NaT", "nat", "now", "today", "  ", "", "None", "null", "<NA>", "NaT "]
 DT_BAD_FIXABLE_NATIVE = [None]                     # fixer is consulted
 DT_BAD_ABORT_NATIVE = [{"i": 5}, {"f": (2.5).hex()}, {"b": True}, {"o": "date"}]   # plain ValueError
 
